@@ -75,6 +75,7 @@ type Ctx struct {
 	defOf     map[string]string
 	stores    map[string]storeInfo
 	ites      map[string][3]T // merged heaps: ite term -> (cond, then, else)
+	ghost0      map[string]T // entry values of ghost variables
 	distinctGrp map[string]int
 	distinctPairs map[string]bool // "a|b": object ids required to differ by the precondition
 	paramIDs  map[string]bool
@@ -311,7 +312,13 @@ type Frame struct {
 	curBlock *ssa.BasicBlock
 	timeLoop *loopInfo
 	inputs   map[*ssa.Parameter]bool
-	defers   []*ssa.Defer
+	defers   []deferRec
+}
+
+type deferRec struct {
+	d     *ssa.Defer
+	reach T    // condition under which the defer statement was executed
+	entry bool // in the entry block (always executed)
 }
 
 type retInfo struct {
@@ -1128,13 +1135,28 @@ func (fr *Frame) execInstr(instr ssa.Instruction, st *State) {
 		// only unconditional defers of the entry block: they run, last first, at
 		// every return (panics are excluded separately by the safety obligations)
 		if in.Block() != fr.fn.Blocks[0] {
-			panic(vcErr("defer outside the entry block of %s is not modelled", fr.fn))
+			// a conditional defer: only calls of external functions (no modelled
+			// effect) are accepted; their call obligations are generated at the
+			// return, guarded by the condition under which the defer was executed
+			callee := in.Call.StaticCallee()
+			if callee == nil || callee.Package() == nil || strings.HasPrefix(callee.Package().Pkg.Path(), modulePrefix) {
+				panic(vcErr("defer of a module function outside the entry block of %s is not modelled", fr.fn))
+			}
+			fr.defers = append(fr.defers, deferRec{in, st.reach, false})
+			return
 		}
-		fr.defers = append(fr.defers, in)
+		fr.defers = append(fr.defers, deferRec{in, tTrue, true})
 	case *ssa.RunDefers:
 		for i := len(fr.defers) - 1; i >= 0; i-- {
-			d := fr.defers[i]
-			fr.call(deferValue{d}, &d.Call, st)
+			dr := fr.defers[i]
+			if dr.entry {
+				fr.call(deferValue{dr.d}, &dr.d.Call, st)
+				continue
+			}
+			saved := st.reach
+			st.reach = c.def("reach", and(saved, dr.reach))
+			fr.call(deferValue{dr.d}, &dr.d.Call, st)
+			st.reach = saved
 		}
 	case *ssa.MakeMap:
 		fr.vals[in] = MapV{map[string]Val{}}
@@ -1464,6 +1486,10 @@ func (fr *Frame) indexAddr(in *ssa.IndexAddr, st *State) Val {
 			}
 			c.oblige(st, "bounds", "", nil, and(app(SBool, "<=", intLit(0), idx), app(SBool, "<", idx, b.Len)), in.Pos(),
 				"index in range")
+			if _, isSl := b.ElemT.Underlying().(*types.Slice); isSl && b.ElemT != nil {
+				// a slice of slices: element k is a slice-valued cell of the object selem(id, k)
+				return FieldPtr{c.sliceElemObj(st, b, idx), "sliceof", sanitize(b.ElemT.String()), b.ElemT}
+			}
 			return OpaqueV{"element of a slice of non-scalars"}
 		}
 		c.oblige(st, "bounds", "", nil, and(app(SBool, "<=", intLit(0), idx), app(SBool, "<", idx, b.Len)), in.Pos(),
@@ -1530,6 +1556,10 @@ func (fr *Frame) convert(in *ssa.Convert, st *State) Val {
 	v := fr.get(in.X)
 	x, ok := v.(T)
 	if !ok {
+		if b, isBasic := in.Type().Underlying().(*types.Basic); isBasic && b.Info()&types.IsString != 0 {
+			// []byte / []rune -> string: a string of unknown content
+			return c.fresh("str", SInt)
+		}
 		return v
 	}
 	from, _ := sortOfBasic(in.X.Type())
@@ -1591,7 +1621,12 @@ func (fr *Frame) unop(in *ssa.UnOp, st *State) Val {
 	c := fr.c
 	switch in.Op {
 	case token.MUL:
-		return fr.load(st, fr.get(in.X), in.Type(), in.Pos())
+		v := fr.load(st, fr.get(in.X), in.Type(), in.Pos())
+		if t, ok := v.(T); ok && t.K == SInt && isUnsigned(in.Type()) && c.inQuant == 0 {
+			// a value of an unsigned type is non-negative
+			c.assume(st.reach, app(SBool, ">=", t, intLit(0)))
+		}
+		return v
 	case token.SUB:
 		x := fr.get(in.X).(T)
 		return c.def(in.Name(), app(x.K, "-", x))
